@@ -74,6 +74,12 @@ def run(ctx):
                 ctx.count("no_site_" + kind)
                 continue
             rendered = [(f["name"], modgen.render(rng, f, wild=rng.choice([0.0, 0.0, 0.3]))[0]) for f in files]
+            if rng.random() < 0.15:
+                # legal spellings with more than one blank (or a tab) between a keyword and the name: the conflict must still
+                # come back as an error that names the file (the line look-up of the merge does not find such lines)
+                sp = rng.choice(["  ", "\t", "   "])
+                rendered = [(nm, t.replace("type ", "type" + sp).replace("define ", "define" + sp).replace("condition ", "condition" + sp))
+                            for nm, t in rendered]
             items.append((files, inj, rendered))
     check_sets(ctx, items, "sets")
 
